@@ -1,5 +1,6 @@
 """C16 — the key-version-value stores never roll back and agree with each other."""
 import lib
+import gen_rustfn
 
 MANIFEST = dict(
     text="Coq theorems over all request histories (put / put_with_version / put_batch / delete / get / get_version / "
@@ -11,7 +12,11 @@ MANIFEST = dict(
          "(tombstones included) so that an older copy served later is refused, also across restarts of a disk-backed "
          "cloud store; the disk store simulates the memory store request by request "
          "(invariant cache = versions of table) and reopen is the identity; cloud: local store changes only by commit, "
-         "read-your-writes, visible versions never lowered, commit writes exactly the standing report.  The models are "
+         "read-your-writes, visible versions never lowered, commit writes exactly the standing report.  "
+         "C16_mem_version_rule_is_source: MemoryKVVStore::put_with_version / get_version / put / delete are translated "
+         "statement by statement from vls-persist/src/kvv/memory.rs on every run (Gen/KvvGen.v) and proved equal to the "
+         "model's m_pwv / version_of / m_put on every store, key, version and value, both build profiles "
+         "(put_batch, get_prefix and the other two stores are not translated).  The models are "
          "run against the three real stores on identical request sequences on every run (breadth-first over a small "
          "alphabet with state de-duplication, random transaction-shaped histories, a malformed stream, a corpus of past "
          "disagreements), and monitors check each clause of the property on the implementations' answers.",
@@ -38,6 +43,7 @@ PINNED = [
     "C16_cloud_restart_local_version_never_lowered",
     "C16_restore_repeated_key_refused", "C16_plain_restore_repeated_key_refused", "C16_nonvacuous_repeated_key",
     "C16_nonvacuous_plain", "C16_nonvacuous_cloud", "C16_nonvacuous_restore",
+    "C16_mem_version_rule_is_source",
 ]
 
 # the one class of behaviour that may be listed in KNOWN_FINDINGS.json (id below): a commit reached
@@ -64,7 +70,20 @@ WHAT = {
 
 def run(res):
     quick = res.tier == "quick"
-    lib.proof_stage(res, "C16.v", "Props.C16", PINNED)
+    # Gen/KvvGen.v is regenerated from /repo's vls-persist/src/kvv/memory.rs under the build lock, right before the
+    # theorem that relates it to the model's version rule is re-checked
+    report = {}
+
+    def regen():
+        report.update(gen_rustfn.generate_kvv(lib.REPO))
+    try:
+        lib.proof_stage(res, "C16.v", "Props.C16", PINNED, pre=regen)
+    except gen_rustfn.GenError as e:
+        res.violation("the translator cannot read MemoryKVVStore::put_with_version / get_version / put / delete or a "
+                      "declaration they use (a construct outside its fragment): %s" % e,
+                      {"translator": "tools/gen_rustfn.py", "source": "vls-persist/src/kvv/memory.rs (+ kvv.rs, vls-core/src/persist/mod.rs)",
+                       "error": str(e), "theorem": "C16_mem_version_rule_is_source"}, has_input=False)
+    res.coverage["translated_from_source"] = report
     cov = res.coverage
     n = 120 if quick else 2000
     out = lib.run_harness("kvv", "all", res.seed, n, res.tier, timeout=3000)
